@@ -155,12 +155,13 @@ func (o *objectSetReconciler) setObjectDeploymentStatus(ctx context.Context,
 
 	// map conditions
 	// -> copy mapped status conditions
-	controllers.DeleteMappedConditions(ctx, objectDeployment.GetConditions())
+	restoreTransitionTimes := controllers.DeleteMappedConditions(ctx, objectDeployment.GetConditions())
 	controllers.MapConditions(
 		ctx,
 		currentObjectSet.ClientObject().GetGeneration(), *currentObjectSet.GetConditions(),
 		objectDeployment.ClientObject().GetGeneration(), objectDeployment.GetConditions(),
 	)
+	restoreTransitionTimes()
 
 	if !meta.IsStatusConditionTrue(*currentObjectSet.GetConditions(), corev1alpha1.ObjectSetSucceeded) {
 		var conds []metav1.Condition
